@@ -339,6 +339,20 @@ class Analysis:
                 return self.prog.bodies[s["rv"]["def"]]
         return None
 
+    def spliced_coroutine_of(self, fn_body):
+        """coroutine_of(fn) with the private *sync* helpers of its module spliced in (A12): structural rules over the loop functions
+        keep seeing e.g. the event-forwarding loop after it was moved into `fn forward_subsystem_changes(..)`.  Block numbers of
+        the original coroutine are preserved (spliced blocks are appended), so event / await tables keyed by block stay valid."""
+        co = self.coroutine_of(fn_body)
+        if co is None:
+            return None
+        cache = self.__dict__.setdefault("_spliced", {})
+        if co.id not in cache:
+            from .inline import inlined, module_private_helpers
+            base = module_private_helpers(co)
+            cache[co.id] = inlined(self.prog, co, lambda cb: not cb.raw.get("coroutine") and base(cb))
+        return cache[co.id]
+
     def info(self, body):
         i = self.infos.get(body.id)
         if i is None:
